@@ -37,6 +37,12 @@ class Chaos(object):
         self.fired = {}
         self.enabled = True
 
+    def __deepcopy__(self, memo):
+        # the steady-state search works on a deep copy of the solver: injected faults target the real run only
+        c = Chaos(())
+        c.enabled = False
+        return c
+
     def __call__(self, x):
         if not self.enabled:
             return x
@@ -54,6 +60,9 @@ class Chaos(object):
                     return float('nan')
                 if kind == 'eval_inf':
                     return float('inf')
+                if kind == 'eval_oscillate':
+                    # a value that never settles: the iteration cannot meet any tolerance
+                    return x + (1.0 if n % 2 else -1.0) * (1.0 + abs(x))
                 if kind == 'eval_overflow_abort':
                     raise OverflowError('math range error')
                 if kind == 'eval_arith_abort':
@@ -72,6 +81,11 @@ class Tick(object):
         self.per_period = {}
         self.period_of = None   # callable returning the current period
         self.enabled = True
+
+    def __deepcopy__(self, memo):
+        c = Tick()
+        c.enabled = False
+        return c
 
     def __call__(self, x):
         if self.enabled and self.period_of is not None:
@@ -166,6 +180,20 @@ def run_block(block, knobs, faults=(), drive='mono', text=None):
                 except Exception as ex:   # noqa
                     rec['prelude_outcome'] = type(ex).__name__
                 rec['prelude_series'] = snapshot(solver.TimeSeries)
+                chaos.calls = 0
+                tick.per_period = {}
+            if knobs.get('prelude_same') is not None:
+                # the very same text was parsed and solved before, under another solver-level horizon
+                rec['phase'] = 'prelude'
+                try:
+                    solver.MaxTime = int(knobs['prelude_same'])
+                    solver.ParseString(text)
+                    solver.SolveEquation()
+                    rec['prelude_outcome'] = 'ok'
+                except Exception as ex:   # noqa
+                    rec['prelude_outcome'] = type(ex).__name__
+                rec['prelude_series'] = snapshot(solver.TimeSeries)
+                solver.MaxTime = int(knobs['maxtime_attr']) if knobs.get('maxtime_attr') is not None else None
                 chaos.calls = 0
                 tick.per_period = {}
             rec['phase'] = 'parse'
